@@ -12,7 +12,7 @@ from mc.common import HarnessError, Stats, pmap, safe, shards
 
 PROPERTY = 'C20'
 LEVEL = 'exploration'
-RULE = ('generate_correlated: every non-constant source column of length 4 over {0,1,2} (+ longer generated columns) x r in {-0.9,-0.5,-0.1,0.1,0.5,0.8,0.99} x the normal draw replaced by each '
+RULE = ('generate_correlated: every non-constant source column of length 4 over {0,1,2} (+ longer generated columns) x r in {-0.999,-0.9,-0.5,-0.1,0.1,0.5,0.8,0.99,0.995} x the normal draw replaced by each '
         'of 12 fixed non-collinear vectors, single index / index list / every subset of <= 2 columns, and chains of calls on one generator instance with changing data; generate_duplicates / generate_combinations (linear, nonlinear, _xor, _and, _or) for every '
         'index selection of <= 3 columns; dataset_info after every sequence of <= 3 generator calls; generate_labels for n in {2,3,4}, p scalar / list / array on tie-free decision values, every '
         'composition of 1 into n parts with step 0.1; generate_noise categorical and missing for p in {0,0.2,0.5,0.99} with every choice of cells under a controlled generator (n<=4) and over a seed '
@@ -20,7 +20,7 @@ RULE = ('generate_correlated: every non-constant source column of length 4 over 
 ASSUMPTIONS = ['collinear or constant normal draws (probability zero) are excluded from the menu', 'labels 0..k-1 as produced by generate_labels; missing marker representable in the data dtype',
                'Pearson agreement within 1e-6']
 
-RS = [-0.9, -0.5, -0.1, 0.1, 0.5, 0.8, 0.99]
+RS = [-0.999, -0.9, -0.5, -0.1, 0.1, 0.5, 0.8, 0.99, 0.995]
 
 
 def normal_menu(n):
